@@ -64,11 +64,11 @@ Qed.
 (* ---------- closure ---------- *)
 Lemma closure_sound c (P : st -> Prop) :
   (forall s a s', P s -> step c s a = Some (s', LTau) -> P s') ->
-  forall fuel frontier acc encs,
+  forall cap fuel frontier acc encs,
     (forall x, In x frontier -> P x) -> (forall x, In x acc -> P x) ->
-    forall x, In x (closure c fuel frontier acc encs) -> P x.
+    forall x, In x (closure c cap fuel frontier acc encs) -> P x.
 Proof.
-  intros Hstep. induction fuel as [|f IH]; intros frontier acc encs Hf Ha x Hx; simpl in Hx.
+  intros Hstep cap. induction fuel as [|f IH]; intros frontier acc encs Hf Ha x Hx; simpl in Hx.
   - apply Ha. exact Hx.
   - destruct frontier as [|y fr]; [apply Ha; exact Hx|].
     destruct (add_new (flat_map (succ_by c is_tau) (y :: fr)) acc encs) as [[acc' encs'] fresh] eqn:E.
@@ -77,17 +77,18 @@ Proof.
     { intros z Hz. apply in_flat_map in Hz. destruct Hz as [w [Hw Hz]].
       destruct (succ_by_sound c _ _ _ Hz) as (a & l & Hs & Hl). apply is_tau_true in Hl. subst l.
       eapply Hstep; [apply Hf; exact Hw|exact Hs]. }
-    apply (IH fresh acc' encs'); [| |exact Hx].
-    + intros z Hz. apply Hnew. apply A. exact Hz.
-    + intros z Hz. destruct (B z Hz); [apply Ha|apply Hnew]; assumption.
+    assert (Hacc' : forall z, In z acc' -> P z).
+    { intros z Hz. destruct (B z Hz); [apply Ha|apply Hnew]; assumption. }
+    destruct (cap <? length acc'); [apply Hacc'; exact Hx|].
+    apply (IH fresh acc' encs'); [|exact Hacc'|exact Hx].
+    intros z Hz. apply Hnew. apply A. exact Hz.
 Qed.
 
-Lemma tau_close_sound c X x : In x (tau_close c X) -> exists y, In y X /\ tau_reach c y x.
+Lemma tau_close_sound c cap X x : In x (tau_close c cap X) -> exists y, In y X /\ tau_reach c y x.
 Proof.
   unfold tau_close. destruct (add_new X [] (PositiveMap.empty unit)) as [[acc encs] fresh] eqn:E.
   destruct (add_new_sound _ _ _ _ _ _ E) as [A B].
-  apply (closure_sound c (fun s => exists y, In y X /\ tau_reach c y s)).
-  - intros s a s' [y [Hy Hr]] Hs. exists y. split; [exact Hy|]. eapply tau_reach_step_r; eauto.
+  apply (closure_sound c (fun s => exists y, In y X /\ tau_reach c y s) ltac:(intros s a s' [y [Hy Hr]] Hs; exists y; split; [exact Hy|eapply tau_reach_step_r; eauto]) cap).
   - intros z Hz. exists z. split; [apply A; exact Hz|apply tr_refl].
   - intros z Hz. destruct (B z Hz) as [[]|Hn]. exists z. split; [exact Hn|apply tr_refl].
 Qed.
@@ -120,14 +121,15 @@ Proof.
 Qed.
 
 (* ---------- the acceptor ---------- *)
-Theorem accept_from_sound c log : forall X,
-  accept_from c X log = true -> exists s s', In s X /\ explains c s log s'.
+Theorem accept_from_sound c cap log : forall X,
+  accept_from c cap X log = Some true -> exists s s', In s X /\ explains c s log s'.
 Proof.
-  induction log as [|o t IH]; intros X H; simpl in H.
-  - destruct X as [|s X']; [discriminate|]. exists s, s. split; [left; reflexivity|apply ex_nil].
-  - destruct (tau_close c (obs_succ c X o)) as [|z Z] eqn:E; [discriminate|].
+  induction log as [|o t IH]; intros X H; cbn [accept_from] in H.
+  - destruct X as [|s X']; [simpl in H; discriminate H|]. exists s, s. split; [left; reflexivity|apply ex_nil].
+  - destruct (tau_close c cap (obs_succ c X o)) as [|z Z] eqn:E; [discriminate H|].
+    destruct (cap <? length (z :: Z)); [discriminate H|].
     destruct (IH _ H) as (s1 & s' & Hin & Hex).
-    rewrite <- E in Hin. destruct (tau_close_sound c _ _ Hin) as (y & Hy & Hr).
+    rewrite <- E in Hin. destruct (tau_close_sound c cap _ _ Hin) as (y & Hy & Hr).
     destruct (obs_succ_sound c _ _ _ Hy) as (s & Hs & Hcase).
     exists s, s'. split; [exact Hs|].
     pose proof (explains_tau c _ _ _ _ Hr Hex) as Hex'.
@@ -138,11 +140,11 @@ Proof.
 Qed.
 
 (* every accepted log is the observable trace of an interleaving of the model that starts in the initial state *)
-Theorem accepts_sound c log :
-  accepts c log = true -> exists s', explains c init log s'.
+Theorem accepts_sound c cap log :
+  accepts c cap log = Some true -> exists s', explains c init log s'.
 Proof.
-  unfold accepts. intros H. destruct (accept_from_sound c log _ H) as (s & s' & Hin & Hex).
-  destruct (tau_close_sound c _ _ Hin) as (y & [Hy|[]] & Hr). subst y.
+  unfold accepts. intros H. destruct (accept_from_sound c cap log _ H) as (s & s' & Hin & Hex).
+  destruct (tau_close_sound c cap _ _ Hin) as (y & [Hy|[]] & Hr). subst y.
   exists s'. eapply explains_tau; eauto.
 Qed.
 
@@ -163,9 +165,9 @@ Qed.
 
 (* hence: what holds in every reachable state of the model holds in the state the model is in after any
    accepted log *)
-Theorem accepted_log_reaches c log :
-  accepts c log = true -> exists acts s, run_acts c init acts = Some s.
+Theorem accepted_log_reaches c cap log :
+  accepts c cap log = Some true -> exists acts s, run_acts c init acts = Some s.
 Proof.
-  intros H. destruct (accepts_sound c log H) as [s' Hex].
+  intros H. destruct (accepts_sound c cap log H) as [s' Hex].
   destruct (explains_run c _ _ _ Hex) as [acts Ha]. eauto.
 Qed.
